@@ -572,6 +572,10 @@ fn dump_body<'tcx>(tcx: TyCtxt<'tcx>, ldid: LocalDefId) -> Option<J> {
     if matches!(kind, DefKind::Fn | DefKind::AssocFn) {
         o.push(("vis", s(format!("{:?}", tcx.visibility(def_id)))));
         o.push(("pub", J::Bool(tcx.visibility(def_id).is_public())));
+        // nameable from outside the crate (pub item on a path of pub modules / re-exports), as the privacy pass computed it
+        let ev = tcx.effective_visibilities(());
+        let reach = DefId::from(def_id).as_local().map(|l| ev.is_reachable(l)).unwrap_or(false);
+        o.push(("reachable", J::Bool(reach)));
         let sig = tcx.fn_sig(def_id).instantiate_identity().skip_norm_wip();
         o.push(("sig", s(with_no_trimmed_paths!(format!("{}", sig)))));
     }
@@ -692,6 +696,10 @@ impl Callbacks for Cb {
                         .map(|v| {
                             J::Obj(vec![
                                 ("name", s(v.name.to_string())),
+                                (
+                                    "explicit_discr",
+                                    J::Bool(matches!(v.discr, rustc_middle::ty::VariantDiscr::Explicit(_))),
+                                ),
                                 (
                                     "fields",
                                     J::Arr(
